@@ -504,3 +504,7 @@ fault("c18-no-poplocals", "C18", "R18c", (TALPY, "\t\tself.localVarsDefined = fo
 fault("c18-pop-unconditional", "C18", "R18c", (TALPY, "\t\tif (self.localVarsDefined):\n\t\t\tself.context.popLocals()\n", "\t\tself.context.popLocals()\n"))
 fault("c18-flag-not-saved", "C18", "R18c", (TALPY, "\t\t\t\t\t\t\t\t,self.tagContent\n\t\t\t\t\t\t\t\t,self.localVarsDefined))", "\t\t\t\t\t\t\t\t,self.tagContent))"), (TALPY, "self.repeatVariable,self.tagContent,self.localVarsDefined = self.scopeStack.pop()", "self.repeatVariable,self.tagContent = self.scopeStack.pop()"))
 twin("c18-twin-flag-eq1", "C18", (TALPY, "\t\tif (self.localVarsDefined):\n\t\t\tself.context.popLocals()\n", "\t\tif (self.localVarsDefined == 1):\n\t\t\tself.context.popLocals()\n"))
+
+twin("c05-twin-child-fstring", "C05", (DIR, '                    self.selectorbase + "/" + file,\n                    self.searchrequest,', '                    f"{self.selectorbase}/{file}",\n                    self.searchrequest,'))
+twin("c07-twin-filter-fstring", "C07", (DIR, '                    ignorepatt, self.selectorbase + "/" + file, file\n', '                    ignorepatt, f"{self.selectorbase}/{file}", file\n'))
+twin("c06-twin-writedir-local-entry", "C06", (SPAR, "            self.writedir(self.entry, handler.getdirlist())", "            entry = self.entry\n            self.writedir(entry, handler.getdirlist())"))
